@@ -6,13 +6,21 @@ TECH = 'bounded model checking: clang-14 LLVM IR of the real nitro sources -> C 
 NOTE = ('Trusted: clang-14 -O1 lowering; the vstd model of std::string/vector/map/stringstream/regex (differentially tested against the g++/libstdc++ build on a corpus in every run; every counterexample is replayed on the real library before it is reported); '
         'tools/ir2c.py; CBMC + SAT solver. Allocation failure out of scope. Holds only inside the bounds recorded in the evidence file.')
 CLAIMED = {
-    'C17': ('7', 'split/join/replace_all/starts_with against naive reference scanners for every byte string inside the length bounds (haystack <= 4 quick / 5 thorough, needle <= 2, replacement <= 2, join of <= 3 elements): the solver decides each law for all byte values; termination of replace_all is the unwinding assertion of its loop.'),
+    'C01': ('6', 'parser::parse on declaration tables vs. the reference CLI specification (spec/cli_spec.h): for every argument vector matching the token templates (symbolic bytes) success implies that the specification accepts it and all toggle counts / positionals / option presence agree, i.e. no token or bundle letter was dropped.'),
+    'C04': ('6', 'parse() leaves only by returning or by parsing_error, and raises exactly when the reference specification says USER_ERROR, for every argument vector / environment string matching the templates; CBMC bounds and pointer checks inside nitro code play the role of the sanitizers.'),
+    'C06': ('6', 'one fixed_vector operation from an arbitrary reachable state (capacity, contents, stale slots, arguments, index all symbolic) and enumerated operation sequences with symbolic arguments: size<=capacity, raises exactly when unsatisfiable, failed operation leaves the container unchanged, instance-counting elements with a symbolic throwing copy/move are neither leaked nor destroyed twice; CBMC object bounds = no access outside the slots.'),
+    'C07': ('6', 'same harness as C06 with a reference bounded list: contents, forward and reverse iteration, copy independence, move transfer and the three assignments are compared after the operation / after every step of enumerated sequences.'),
+    'C08': ('6', 'nitro::format against a 15-line reference scanner for every format string up to the length bound (all bytes symbolic) and symbolic arguments, both supply styles and three read-out paths; exception message == concatenation.'),
+    'C16': ('6', 'six operators of a tuple_operators type vs. lexicographic reference over all pairs of full-width symbolic member tuples, trichotomy/transitivity over triples, equal => equal hash, last-component injectivity (universal) and per-component / order sensitivity as existential queries whose unsatisfiability is reported as a violation.'),
+    'C17': ('6', 'split/join/replace_all/starts_with against naive reference scanners for every byte string inside the length bounds (haystack <= 4 quick / 5 thorough, needle <= 2, replacement <= 2, join of <= 3 elements): the solver decides each law for all byte values; termination of replace_all is the unwinding assertion of its loop.'),
+    'C18': ('6', 'quaint_ptr ownership histories (first two operation kinds enumerated, the rest symbolic) with per-object destructor counters by type, and optional<T> histories against a {has,value} reference with an instance-counting T.'),
+    'C19': ('6', 'env::get for symbolic names/values/defaults against a getenv stub; dl/symbol lifetimes against a counting loader stub: operation sequences and slots are enumerated outside the solver, the solver decides the loader failure of one designated step; after every step a handle is open exactly while an owner refers to it, dlclose exactly once.'),
 }
 PENDING = {}
 props = [json.loads(l)['id'] for l in open(os.path.join(HERE, 'properties.jsonl'))]
 hooks = {"guard": "NITRO_VERIF",
          "enable": "checks compile the /repo sources with -DNITRO_VERIF (plus -DNITRO_VERIF_NO_MESSAGES for harnesses whose subject is not exception text); the cmake build never defines it",
-         "baseline_off_cmd": "cmake --build /repo/_build && ctest --test-dir /repo/_build -j8 --timeout 900",
+         "baseline_off_cmd": "python3 /verif/tools/baseline_check.py",
          "source_commits": ["92a6362"], "add_only": True}
 checks = []
 for p in props:
